@@ -325,4 +325,116 @@ def incoming (pdata : List UInt8) : Except PyErr Incoming :=
     | .ok _ => .error .indexError
     | .error e => .error e
 
+/-! ## Objects and repeated use
+
+The encoders are methods on objects that are used more than once (one trajectory list uploaded to several
+`TrajectoryMemory` objects, re-uploads, an LED ring written after every colour change, one `Localization` object
+receiving a stream of packets).  Each object is modelled by the attributes its constructor stores (Gen pins: the raw
+arguments) and every method returns the object *afterwards* together with its result, so that statements can be made
+about every call in a history, not only the first. -/
+
+/-- what `CompressedStart.__init__` keeps -/
+structure StartObj where
+  x : Q
+  y : Q
+  z : Q
+  yaw : Q            -- value of `math.degrees(self.yaw)`
+  deriving Repr, DecidableEq
+
+/-- what `CompressedSegment.__init__` keeps (after `_validate`) -/
+structure SegObj where
+  duration : Q
+  x : List Q
+  y : List Q
+  z : List Q
+  yaw : List Q
+  deriving Repr, DecidableEq
+
+inductive TrajElem
+  | start (o : StartObj)
+  | seg (o : SegObj)
+  deriving Repr, DecidableEq
+
+/-- the constructors: `CompressedSegment.__init__` raises a plain `Exception` for an element of invalid length -/
+def SegObj.new (duration : Q) (x y z yawDeg : List Q) : Except PyErr SegObj :=
+  if !(validLen x.length && validLen y.length && validLen z.length && validLen yawDeg.length) then .error .other
+  else .ok ⟨duration, x, y, z, yawDeg⟩
+
+/-- `element.pack()`: computes from the stored attributes and stores nothing (Gen: `startPackStores`, `segPackStores`) -/
+def TrajElem.pack : TrajElem → TrajElem × Except PyErr (List UInt8)
+  | .start o => (.start o, packStart o.x o.y o.z o.yaw)
+  | .seg o => (.seg o, packSegment o.duration o.x o.y o.z o.yaw)
+
+/-- `n` successive `pack()` calls on one object: the object afterwards and the `n` results -/
+def packN (e : TrajElem) : Nat → TrajElem × List (Except PyErr (List UInt8))
+  | 0 => (e, [])
+  | n + 1 =>
+    let r := e.pack
+    let rest := packN r.1 n
+    (rest.1, r.2 :: rest.2)
+
+/-- `TrajectoryMemory.write_data`: `for element in self.trajectory: data += element.pack()` then one memory write of
+`data` (the result here); an exception leaves the loop.  Returns the elements afterwards. -/
+def writeTraj : List TrajElem → List TrajElem × Except PyErr (List UInt8)
+  | [] => ([], .ok [])
+  | e :: es =>
+    let r := e.pack
+    match r.2 with
+    | .error err => (r.1 :: es, .error err)
+    | .ok a =>
+      let rest := writeTraj es
+      (r.1 :: rest.1, rest.2.map (a ++ ·))
+
+/-- `n` uploads of the same trajectory list (to any memories / start addresses: the memory object contributes nothing
+to the data) -/
+def uploadN (els : List TrajElem) : Nat → List TrajElem × List (Except PyErr (List UInt8))
+  | 0 => (els, [])
+  | n + 1 =>
+    let r := writeTraj els
+    let rest := uploadN r.1 n
+    (rest.1, r.2 :: rest.2)
+
+/-- `LED.set(r, g, b, intensity=None)`: `if intensity:` — `None` and `0` leave the intensity as it was -/
+def Led.set (l : Led) (r g b : Int) (intensity : Option Nat) : Led :=
+  { r := r, g := g, b := b, intensity := match intensity with
+                                          | some (n + 1) => n + 1
+                                          | _ => l.intensity }
+
+/-- operations on one `LEDDriverMemory` object -/
+inductive LedOp
+  | set (i : Nat) (r g b : Int) (intensity : Option Nat)     -- `mem.leds[i].set(r, g, b, intensity)`
+  | intensity (i : Nat) (v : Nat)                            -- `mem.leds[i].intensity = v`
+  | write                                                     -- `mem.write_data(cb)`
+  deriving Repr, DecidableEq
+
+def ledInit : List Led := List.replicate 12 ⟨0, 0, 0, 100⟩
+
+def ledStep (s : List Led) : LedOp → List Led × Option (Except PyErr (List UInt8))
+  | .set i r g b it => (s.modify i (fun l => l.set r g b it), none)
+  | .intensity i v => (s.modify i (fun l => { l with intensity := v }), none)
+  | .write => (s, some (ledWriteData s))
+
+/-- a whole history on one object: the data of every write, in order -/
+def ledRun (s : List Led) : List LedOp → List (Except PyErr (List UInt8))
+  | [] => []
+  | op :: ops =>
+    let r := ledStep s op
+    match r.2 with
+    | some out => out :: ledRun r.1 ops
+    | none => ledRun r.1 ops
+
+/-- operations on one `LEDTimingsDriverMemory` object -/
+inductive TimingOp
+  | add (t : Timing)
+  | write
+  deriving Repr, DecidableEq
+
+def timingRun (s : List Timing) : List TimingOp → List (Except PyErr (List UInt8))
+  | [] => []
+  | .add t :: ops => timingRun (s ++ [t]) ops
+  | .write :: ops => timingsWriteData s :: timingRun s ops
+
+/-- one `Localization` object receiving a stream of packets: `_incoming` keeps nothing between packets (Gen: `incStores`) -/
+def incomingAll (ps : List (List UInt8)) : List (Except PyErr Incoming) := ps.map incoming
+
 end CfVerif.C13
